@@ -33,13 +33,14 @@ theorem source_constants :
 theorem source_makeDeadline :
     Generated.Clock.makeDeadlineSrc =
       ["{",
+       "clockEnd := fast.clockEnd.read()",
        "end := fast.current.read() + deadlineTicks(d)",
-       "if end > fast.clockEnd.read() {",
+       "if end > clockEnd {",
        "fast.mu.Lock()",
        "if !fast.running && !fast.start.IsZero() {",
        "fast.current.write(durationToTicks(time.Since(fast.start)))",
-       "end = fast.current.read() + deadlineTicks(d)",
        "}",
+       "end = fast.current.read() + deadlineTicks(d)",
        "fast.mu.Unlock()",
        "extendClock(end)",
        "}",
